@@ -104,7 +104,9 @@ PROPS = {
     "C04": dict(mod="IpamVerif.Props.C04", engine="hist", streams=[("hist", "hist", make_proj(["patches"], "nocursor", api=True))], judge=("hist", {"C04"}), rule=HIST_RULE),
     "C05": dict(mod="IpamVerif.Props.C05", engine="hist", streams=[("hist", "hist", make_proj(["res", "patches", "events", "nq"], "full"))], judge=("hist", {"C05"}), rule=HIST_RULE),
     "C06": dict(mod="IpamVerif.Props.C06", engine="hist", streams=[("hist", "hist", make_proj(["patches", "ccw"], "nocursor", api=True))], judge=("hist", {"C06"}), rule=HIST_RULE),
-    "C07": dict(mod="IpamVerif.Props.C07", engine="hist", streams=[("hist", "hist", make_proj(["patches"], "full"))], judge=("hist", {"C07"}), rule=HIST_RULE),
+    "C07": dict(mod="IpamVerif.Props.C07", engine="hist", streams=[("order", "hist", make_proj(["patches"], "full")), ("hist", "hist", make_proj(["patches"], "full"))], judge=("hist", {"C07"}),
+                rule=HIST_RULE + "; profile 'order': 3..5 ClusterCIDRs of one family whose selectors (0, 1 or 2 requirements, ties at every level) all select one label set, created in arbitrary order, "
+                     "and a stream of nodes with that label set served until the higher-priority ClusterCIDRs are exhausted"),
     "C08": dict(mod="IpamVerif.Props.C08", engine="hist", streams=[("hist", "hist", make_proj(["patches", "ccw", "events"], "nocursor", view=True))], judge=("hist", {"C08"}), rule=HIST_RULE),
     "C09": dict(mod="IpamVerif.Props.C09", engine="hist", streams=[("svc", "hist", make_proj(["patches"], "full"))], judge=("hist", {"C09"}),
                 rule=HIST_RULE + "; profile 'svc': every first start and one restart in six is given a primary and/or secondary service range (inside, equal to, containing, smaller than a block, other family)"),
